@@ -176,12 +176,12 @@ def map(
             )
 
     position = layers[0]["position"]
-    cell_size = layers[0]["dx"]
     ndim = position.nvec
 
     thick = dz is not None
 
     spatial_unit = position.unit
+    cell_size = layers[0]["dx"].to(spatial_unit)
     map_unit = spatial_unit
 
     # Set window size
